@@ -222,6 +222,10 @@ func apiGroupHandler(w http.ResponseWriter, r *http.Request, pth string) {
 	if first != "" {
 		g = first[1:]
 	}
+	if kind == "" && len(g) > 1 {
+		// the URL of a group ends with a slash
+		g = strings.TrimSuffix(g, "/")
+	}
 	if g == "" && kind == "" {
 		if apiCORS(w, r, "HEAD, GET") {
 			return
